@@ -37,6 +37,9 @@ def shards(tier):
     return 8 if tier == "quick" else 16
 
 
+TIMEOUT = {"quick": 300, "thorough": 1500}
+
+
 STATUSES = [0, 1, 2, 127, 128, 255, 256, 65535, (1 << 31) - 1, 1 << 31, (1 << 32) - 1]
 
 
@@ -254,7 +257,9 @@ def run_case(ctx, case, rng, seedbase):
                 tr.renegotiate_keys()
                 ctx.count("rekeys_during_transfer")
             except Exception as e:
-                rekey_err.append(repr(e))
+                import traceback
+                rekey_err.append(repr(e) + " client:%r server:%r | %s" % (p.tc.saved_exception, p.ts.saved_exception,
+                                                                         traceback.format_exc()[-600:]))
                 break
         writers = [t for ch in chans for t in ch.threads[:2]]
         readers = [(ch, ch.threads[2]) for ch in chans]
@@ -268,23 +273,29 @@ def run_case(ctx, case, rng, seedbase):
             return
         # readers: finished, or provably starved (link drained, reader idling, no progress) -- never a time verdict
         end = time.monotonic() + 300
-        for ch, t in readers:
-            while t.is_alive() and time.monotonic() < end:
-                t.join(0.01)
-                if not t.is_alive():
-                    break
-                if p.link.quiescent(0.3):
-                    n0, i0 = len(ch.from_recv) + len(ch.from_stderr), ch.idle
-                    pair.wait_for(lambda: ch.idle >= i0 + 40 or not t.is_alive(), 30, 0.005)
-                    if t.is_alive() and ch.idle >= i0 + 40 and p.link.quiescent(0.3) and \
-                            len(ch.from_recv) + len(ch.from_stderr) == n0:
-                        ch.giveup.set()
-                        ctx.count("readers_starved_at_quiescence")
-                        t.join(10)
-            if t.is_alive():
+        while time.monotonic() < end:
+            alive = [(ch, t) for ch, t in readers if t.is_alive()]
+            if not alive:
+                break
+            time.sleep(0.01)
+            if not p.link.quiescent(0.3):
+                continue
+            snap = [(ch, t, len(ch.from_recv) + len(ch.from_stderr), ch.idle) for ch, t in alive]
+            pair.wait_for(lambda: all(ch.idle >= i0 + 40 or not t.is_alive() for ch, t, n0, i0 in snap), 30, 0.005)
+            if not p.link.quiescent(0.3):
+                continue
+            for ch, t, n0, i0 in snap:
+                if t.is_alive() and ch.idle >= i0 + 40 and len(ch.from_recv) + len(ch.from_stderr) == n0:
+                    ch.giveup.set()
+                    ctx.count("readers_starved_at_quiescence")
+            for ch, t, n0, i0 in snap:
+                if ch.giveup.is_set():
+                    t.join(10)
+        if any(t.is_alive() for ch, t in readers):
+            for ch in chans:
                 ch.giveup.set()
-                ctx.inconclusive("a reader neither finished nor went idle")
-                return
+            ctx.inconclusive("a reader neither finished nor went idle")
+            return
         p.wait_quiet(0.05, 5)
         for ch in chans:
             if ch.errors or not ch.reader_done:
